@@ -208,19 +208,16 @@ type ChanEvent struct {
 
 // Stream is the fake clients.Stream.
 type Stream struct {
-	rig                 *Rig
-	Server, Gen, ID     int
-	ctx                 context.Context
-	recvCh              chan []byte
-	brokenCh            chan struct{}
-	Broken              bool
-	RecvCalls           int
-	RecvPending         bool
-	Pushed              int
-	SendsAfterBreak     int
-	RecvEnteredWhileFC  int
-	firstRequestSeen    bool
-	lastPushOpForStream int
+	rig             *Rig
+	Server, Gen, ID int
+	ctx             context.Context
+	recvCh          chan []byte
+	brokenCh        chan struct{}
+	Broken          bool
+	RecvCalls       int
+	RecvPending     bool
+	Pushed          int
+	SendsAfterBreak int
 }
 
 // Send implements clients.Stream.
